@@ -4,6 +4,8 @@ package main
 
 import (
 	"sort"
+
+	"golang.org/x/tools/go/ssa"
 )
 
 type Ctx struct {
@@ -11,6 +13,7 @@ type Ctx struct {
 	opts options
 	eff  *Effects
 	memo map[string]*RuleResult
+	gcs  map[*ssa.Function]*GCNF
 }
 
 func newCtx(p *Prog, opts options) *Ctx {
